@@ -59,7 +59,7 @@ def match_known(known, prop, harness, desc):
 
 
 def prop_of_desc(desc, primary):
-    m = re.match(r"^(C\d\d)[:\s]", desc)
+    m = re.match(r"^\"?(C\d\d)[:\s]", desc)
     return m.group(1) if m else primary
 
 
@@ -262,9 +262,11 @@ def check(prop, tier, seed, selected, build_dir, workdir, args, t_start):
                 cands.append((pname, "C18: " + desc + " (a retry loop of the queue did not terminate within its bound)", loc, "C18"))
             else:
                 inconclusive.append("%s: unwinding bound too small at %s:%s (%s)" % (h, f, loc.get("line"), desc))
-        if not c["cover_unsat"] and not cands:
+        if not [x for x in c["cover_unsat"] if x not in R.optional_covers(h)] and not cands:
             nontrivial += 1
         for cu in c["cover_unsat"]:
+            if cu in R.optional_covers(h):
+                continue
             if not cands:
                 inconclusive.append("%s: vacuity witness unsatisfiable: %s" % (h, cu))
         # triage candidates
